@@ -57,7 +57,10 @@ def cases(tier, rng):
         for e in ents3: cfg[(sh, e)] = shs
         steps = [sop(spawn(e, [c for c in (ex, sh) if rng.random() < .85] or [ex])) for e in ents3]
         steps.append(frame(raw(pads=[pad(p) for p in range(3)])))
-        for _ in range(rng.randint(5, 10)):
+        nfr = rng.randint(5, 10)
+        for k in range(nfr):
+            if k == nfr // 2 and rng.random() < .5:
+                steps.append(sop(REBUILD))        # every instance is rebuilt for its own entity: own bindings, own gamepad
             hot = rng.randrange(3)
             steps.append(frame(raw(pads=[pad(p, [bt for bt in range(2) if rng.random() < .4], [(0, rng.choice([F(1, 2), F(-1)]) if p == hot else F(0))]) for p in range(3)]), rand_dt(rng)))
         yield (scenario(sorted([ex, sh]), ents3, cfg, steps), 'per-entity-gamepads')
@@ -75,9 +78,9 @@ def nontrivial(case, out):
 STAGES = [dict(name='fanout', mode='app', coq='Check.C14c', cases=cases, nontrivial=nontrivial, shard=25,
                exhaustive={'thorough': False, 'quick': True},
                rule='an exclusive and a shared context type side by side, three entities; exclusive instances are driven by entity-specific scripted states, the shared one by one script; '
-                    'every single join/leave (insert/remove x entity x type) after frames 1, 2, 4 (quick; ordered pairs, sampled to 1500, in thorough) and random histories of 0-6 ops over 6-16 frames; exclusive instances tied to different gamepads (or unrestricted) next to a shared context, three gamepads with independent button/axis activity; '
+                    'every single join/leave (insert/remove x entity x type) after frames 1, 2, 4 (quick; ordered pairs, sampled to 1500, in thorough) and random histories of 0-6 ops over 6-16 frames; exclusive instances tied to different gamepads (or unrestricted) next to a shared context, three gamepads with independent button/axis activity, a rebuild in the middle; '
                     'non-trivial = some event is delivered to the second or third entity; distinct = distinct scenario text')]
-CLAUSES = {1: 'an entity that did not hold the context at evaluation time received one of its events', 2: 'holders of a shared context did not receive identical event lists',
+CLAUSES = {1: 'an entity that did not hold the context at evaluation time received one of its events', 2: 'holders of a shared context did not receive identical event lists', 5: 'an exclusive instance does not follow the configuration of its own entity (state differs from what its own scripted condition says for the instance\'s age)',
            3: 'the events an exclusive owner received are not those of its own instance', 4: 'a binding of a per-entity instance did not read its own device (instances with different gamepads are not independent)', 8: 'panic', 9: 'malformed trace', 10: 'panic'}
 def describe(stage, clause): return CLAUSES.get(clause, 'clause %d' % clause)
 def matches_known(k, case, verdict): return False
